@@ -57,8 +57,34 @@ def vclass(v, n):
     return "gen"
 
 
+_NOISE = {"i": 0}
+
+
+def _noise(n=None):
+    """Calls outside the domain (wrong argument types, impossible orders).  Whatever they do, they must not disturb later calls.
+    The last ones use arguments that compare EQUAL to the upcoming valid order but have the wrong type (float, bool-ish)."""
+    _NOISE["i"] += 1
+    if _NOISE["i"] % 5:
+        return
+    for f, args in ((util.sigencode_string, (5, 6, 65536.0)), (util.sigencode_string, (1, 1, -3)), (util.orderlen, (None,)),
+                    (util.number_to_string, (2 ** 40, 255)), (util.sigdecode_string, (b"\x00" * 5, 2.5)), (util.sigencode_der, (-1, 1, 7)),
+                    (util.string_to_number_fixedlen, (b"\x01", 2 ** 300)), (util.sigdecode_strings, ((b"a", None), 17))):
+        try:
+            f(*args)
+        except BaseException:
+            pass
+    if n is not None and n < 1 << 53:
+        for f, args in ((util.sigdecode_string, (b"\x00\x00", float(n))), (util.sigencode_string, (0, 0, float(n))), (util.orderlen, (float(n),))):
+            try:
+                f(*args)
+            except BaseException:
+                pass
+
+
 def check_triplet(ctx, n, r, s, detail=True):
     """All three formats for one (n, r, s)."""
+    if detail:
+        _noise(n)
     L = blen(n)
     want_r, want_s = r.to_bytes(L, "big"), s.to_bytes(L, "big")
     key = "%d|%s|%s" % (n if n < 400 else n.bit_length() % 8, vclass(r, n), vclass(s, n)) if detail else None
@@ -68,7 +94,7 @@ def check_triplet(ctx, n, r, s, detail=True):
         ctx.case("rt.string", key=key, nontrivial=detail, sample=dict(n=n, r=r, s=s, encoded=enc) if ctx.want("rt.string") and n > 300 else None)
         if bytes(enc) != want_r + want_s:
             ctx.violation("string_encoding_wrong", "sigencode_string(%d,%d,%d) = %s" % (r, s, n, bytes(enc).hex()), dict(n=n, r=r, s=s), _rp("string", r, s, n))
-        elif util.sigdecode_string(enc, n) != (r, s) or (detail and (util.sigdecode_string(bytearray(enc), n) != (r, s) or util.sigdecode_string(memoryview(enc), n) != (r, s))):
+        elif util.sigdecode_string(enc, n) != (r, s) or (detail and (r + s) % 4 == 0 and any(util.sigdecode_string(o, n) != (r, s) for _, o in gen.containers(enc))):
             ctx.violation("string_roundtrip", "sigdecode_string(sigencode_string(%d,%d,%d))" % (r, s, n), dict(n=n, r=r, s=s), _rp("string", r, s, n))
     except Exception as e:
         ctx.case("rt.string", key=key, nontrivial=detail)
@@ -79,7 +105,7 @@ def check_triplet(ctx, n, r, s, detail=True):
         ctx.case("rt.strings", key=key, nontrivial=detail)
         if not (isinstance(enc, tuple) and len(enc) == 2 and bytes(enc[0]) == want_r and bytes(enc[1]) == want_s):
             ctx.violation("strings_encoding_wrong", "sigencode_strings(%d,%d,%d) = %r" % (r, s, n, enc), dict(n=n, r=r, s=s), _rp("strings", r, s, n))
-        elif util.sigdecode_strings(enc, n) != (r, s) or (detail and util.sigdecode_strings([bytearray(enc[0]), memoryview(enc[1])], n) != (r, s)):
+        elif util.sigdecode_strings(enc, n) != (r, s) or (detail and (r + s) % 4 == 1 and any(util.sigdecode_strings([o1, o2], n) != (r, s) for (_, o1), (_, o2) in zip(gen.containers(enc[0]), reversed(gen.containers(enc[1]))))):
             ctx.violation("strings_roundtrip", "sigdecode_strings(sigencode_strings(%d,%d,%d))" % (r, s, n), dict(n=n, r=r, s=s), _rp("strings", r, s, n))
     except Exception as e:
         ctx.case("rt.strings", key=key, nontrivial=detail)
@@ -90,7 +116,7 @@ def check_triplet(ctx, n, r, s, detail=True):
         ctx.case("rt.der", key=key, nontrivial=detail, sample=dict(n=n, r=r, s=s, encoded=enc) if ctx.want("rt.der") and n > 300 else None)
         if bytes(enc) != R.enc_sig(r, s):
             ctx.violation("der_encoding_wrong", "sigencode_der(%d,%d,%d) = %s, reference %s" % (r, s, n, bytes(enc).hex(), R.enc_sig(r, s).hex()), dict(n=n, r=r, s=s), _rp("der", r, s, n))
-        elif util.sigdecode_der(enc, n) != (r, s) or (detail and (util.sigdecode_der(bytearray(enc), n) != (r, s) or util.sigdecode_der(memoryview(enc), n) != (r, s))):
+        elif util.sigdecode_der(enc, n) != (r, s) or (detail and (r + s) % 4 == 2 and any(util.sigdecode_der(o, n) != (r, s) for _, o in gen.containers(enc, wide=False))):
             ctx.violation("der_roundtrip", "sigdecode_der(sigencode_der(%d,%d,%d))" % (r, s, n), dict(n=n, r=r, s=s), _rp("der", r, s, n))
     except Exception as e:
         ctx.case("rt.der", key=key, nontrivial=detail)
